@@ -49,7 +49,15 @@ RULE = ("reversible chains from random connected symmetric integer count matrice
         "thorough); results kept as (i, j, value) triplets; the clauses are evaluated in double arithmetic (numpy; rounding <= 1e-12 against the "
         "tolerance 1e-9: net flux = positive part of f - f^T for every entry, one direction per pair, conservation, definition against the code's "
         "own committor, whose equations are checked, reactive populations against a dense solve of the committor equations done by the "
-        "harness) and the sparse results are compared with the code's dense results on the same matrix (`dense-sparse-agree`); oracle only")
+        "harness) and the sparse results are compared with the code's dense results on the same matrix (`dense-sparse-agree`); oracle only. "
+        "Fifth wave. Stream `sparray` (42 / 336) and 7 / 21 more near-symmetric and many-state cases: SciPy's sparse ARRAY classes csr_array, "
+        "csc_array, coo_array, lil_array, dok_array, dia_array, bsr_array (all the installed SciPy offers; `*` is elementwise on them, unlike "
+        "on the *_matrix classes), each plain, with self-transitions everywhere, in the representation variants of stream `layout`, with small "
+        "magnitudes, populations given / unnormalised / computed. Stream `negidx` (70 / 560, plus 3 / 9 chains with 60..160 states): source "
+        "and sink sets naming states the NumPy way from the end (i - n; -1 the last state and -n the first in half of the cases), alone and "
+        "mixed with non-negative members, as list / tuple / scalar / int64 / int32 / read-only arrays, on dense arrays, *_matrix and *_array "
+        "containers; model and oracle work on the states meant, and committors and the three flux functions called with the non-negative "
+        "names are an extra reference (`negative-index-equivalence`, at the clause's tolerance)")
 TRUSTED = ["translator/tr_flux.py: statement shapes of tpt.py and the shape typing of NumPy broadcasting / scipy.sparse "
            ".multiply (M * v[:, None] = row_scale, M * v = col_scale; entry semantics in Base/FluxBase.v, proved equal to "
            "the model in Proof/FluxGenProofs.v, exercised by the correspondence on every case)",
@@ -222,6 +230,7 @@ def generate(rng, tier):
         cases.append({"C": C, "src": src, "snk": snk, "pops": "given", "fmt": rng.choice(FMTS),
                       "scalar_sets": False, "stream": "range"})
     cases += _wave2(rng, tier)
+    cases += _wave5(rng, tier, sizes)
     return cases
 
 
@@ -344,6 +353,121 @@ def _wave2(rng, tier):
         perm = rng.sample(range(n), 6)
         out.append({"C": C, "src": perm[:rng.randint(1, 3)], "snk": perm[3:3 + rng.randint(1, 3)],
                     "pops": "given", "fmt": "dense", "scalar_sets": False, "stream": "large"})
+    return out
+
+
+def _neg_flags(rng, xs, mode):
+    k = len(xs)
+    if mode in ("all", "none") or k == 1:
+        return [0 if mode == "none" else 1] * k
+    while True:
+        f = [rng.randint(0, 1) for _ in xs]
+        if any(f) and not all(f):
+            return f
+
+
+NEG_MODES = [("all", "none"), ("none", "all"), ("all", "all"), ("mixed", "mixed"), ("mixed", "none"), ("none", "mixed")]
+
+
+def _wave5(rng, tier, sizes):
+    """round 3s, fifth wave: (g) SciPy's sparse ARRAY classes, (h) states named by negative indices"""
+    out = []
+    k3 = 1 if tier == "quick" else 8
+    sparse_deck, forms_deck, pforms_deck = [], [], []
+    # (g) every sparse array class the installed SciPy offers (c["arr"]), through the streams of the *_matrix classes:
+    #     plain, representation variants, small magnitudes, near-symmetric, many states
+    for rep in range(6 * k3):
+        for fmt in FMTS[1:]:
+            n = rng.choice(sizes)
+            C = _counts(rng, n)
+            src, snk = _sets(rng, n)
+            c = {"C": C, "src": src, "snk": snk, "pops": ["given", "computed", "given-unnormalised"][(rep + len(out)) % 3],
+                 "fmt": fmt, "arr": True, "scalar_sets": False, "stream": "sparray"}
+            kind = rep % 6
+            if kind == 1:        # representation variants
+                ok = [l for l in SPARSE_REPRS if fmt in {"ro": ["csr", "csc", "coo", "bsr", "dia"], "unsorted": ["csr", "csc"],
+                                                       "idx64": ["csr", "csc"], "dups": ["coo"]}.get(l, FMTS[1:])]
+                c["layout"] = rng.choice(ok)
+                if "f32" in c["layout"]:
+                    c["C"] = _dyadic(rng, C)
+                    if c["pops"] == "computed":
+                        c["pops"] = "given"
+                if c["pops"] != "computed":
+                    c["pops_form"] = _deal(rng, POPS_FORMS, pforms_deck)
+                c["sets_form"] = _deal(rng, SETS_FORMS, forms_deck)
+            elif kind == 2:      # small magnitudes
+                c["pops"] = "given"
+                if rng.random() < 0.5:
+                    c["small"] = "scaled"
+                    c["scale_k"] = rng.choice([10, 30, 33, 36, 40, 60, 100])
+                else:
+                    c["small"] = "rare"
+                    g = rng.choice(src + snk)
+                    c["C"][g][g] = 10 ** rng.choice([9, 11, 12, 12, 13, 16]) + rng.randint(0, 9)
+            elif kind == 3:      # self-transitions everywhere, multi-member sets as arrays
+                for i in range(n):
+                    c["C"][i][i] = rng.randint(1, 6)
+                c["sets_form"] = _deal(rng, SETS_FORMS, forms_deck)
+            out.append(c)
+    for k, fmt in enumerate(FMTS[1:] * (1 if tier == "quick" else 3)):
+        if k % 2 == 0:           # near-symmetric transition matrix, far-from-uniform stationary vector
+            C, basin = _nearsym(rng)
+            if C is None:
+                continue
+            n = len(C)
+            A = [i for i in range(n) if basin[i] == 0]
+            B = [i for i in range(n) if basin[i] == 1]
+            rng.shuffle(A)
+            rng.shuffle(B)
+            src, snk = A[:rng.randint(1, len(A) - 1)], B[:rng.randint(1, len(B) - 1)]
+            out.append({"C": C, "src": src, "snk": snk, "pops": "computed" if k % 4 else "given", "fmt": fmt, "arr": True,
+                        "scalar_sets": False, "stream": "nearsym"})
+        else:                    # many states (oracle only)
+            n = rng.randint(60, 160)
+            C = _large_counts(rng, n, rng.choice([0.03, 0.05, 0.07]))
+            perm = rng.sample(range(n), 6)
+            out.append({"C": C, "src": perm[:rng.randint(1, 3)], "snk": perm[3:3 + rng.randint(1, 3)],
+                        "pops": rng.choice(["given", "computed"]), "fmt": fmt, "arr": True, "scalar_sets": False, "stream": "large"})
+    # (h) negative indices in the source / sink sets, alone and mixed with non-negative ones, in every argument form, on
+    #     dense arrays and both families of sparse containers
+    for k in range(70 * k3):
+        n = rng.choice(sizes)
+        C = _counts(rng, n)
+        src, snk = _sets(rng, n)
+        ms, mt = NEG_MODES[k % 6]
+        c = {"C": C, "src": src, "snk": snk, "pops": ["given", "computed", "given-unnormalised", "given"][k % 4],
+             "fmt": "dense" if k % 5 < 2 else FMTS[1:][(k // 5) % 7], "scalar_sets": False, "stream": "negidx"}
+        if k % 5 >= 3 and c["fmt"] != "dense":
+            c["arr"] = True
+        # the ends of the index range often: the last state as -1, the first as -n
+        edge = {0: n - 1, 1: 0}.get(k % 4)
+        if edge is not None:
+            key = "src" if (ms != "none" and (mt == "none" or rng.random() < 0.5)) else "snk"
+            other = "snk" if key == "src" else "src"
+            if edge in c[other]:
+                c[other] = [c[key][0] if x == edge else x for x in c[other]]
+            if edge not in c[key]:
+                c[key] = [edge] + c[key][1:]
+        c["neg"] = {"src": _neg_flags(rng, c["src"], ms), "snk": _neg_flags(rng, c["snk"], mt)}
+        if edge is not None:
+            c["neg"][key][c[key].index(edge)] = 1
+        c["sets_form"] = _deal(rng, SETS_FORMS, forms_deck)
+        if k % 7 == 3:
+            for i in range(n):
+                c["C"][i][i] = rng.randint(1, 6)
+        out.append(c)
+    for fmt, arr in [("dense", False), ("csr", False), ("coo", True)] * (1 if tier == "quick" else 3):
+        n = rng.randint(60, 160)
+        C = _large_counts(rng, n, rng.choice([0.03, 0.05, 0.07]))
+        perm = rng.sample(range(n), 6)
+        c = {"C": C, "src": perm[:rng.randint(1, 3)], "snk": perm[3:3 + rng.randint(1, 3)],
+             "pops": rng.choice(["given", "computed"]), "fmt": fmt, "scalar_sets": False, "stream": "large"}
+        if arr:
+            c["arr"] = True
+        c["neg"] = {"src": _neg_flags(rng, c["src"], rng.choice(["all", "mixed", "none"])),
+                    "snk": _neg_flags(rng, c["snk"], rng.choice(["all", "mixed"]))}
+        c["sets_form"] = _deal(rng, SETS_FORMS[:5], forms_deck)
+        out.append(c)
     return out
 
 
@@ -526,7 +650,9 @@ def _mk_tprob(c, Tf):
         return a
     fmt = c["fmt"]
     lay = lay or "canon"
-    coo = sp.coo_matrix(Tf)
+    # c["arr"]: SciPy's sparse ARRAY classes (csr_array, ...: `*` is elementwise on them) instead of the *_matrix ones
+    coo_cls = sp.coo_array if c.get("arr") else sp.coo_matrix
+    coo = coo_cls(Tf)
     if lay in ("canon", "ro"):
         x = coo.asformat(fmt)
     elif lay == "f32":
@@ -534,11 +660,11 @@ def _mk_tprob(c, Tf):
     elif lay == "explicit-zeros":      # stored zeros at some structurally empty positions
         zr, zc = np.nonzero(Tf == 0)
         zr, zc = zr[::2], zc[::2]
-        x = sp.coo_matrix((np.concatenate([coo.data, np.zeros(len(zr))]),
-                           (np.concatenate([coo.row, zr]), np.concatenate([coo.col, zc]))), shape=Tf.shape).asformat(fmt)
+        x = coo_cls((np.concatenate([coo.data, np.zeros(len(zr))]),
+                     (np.concatenate([coo.row, zr]), np.concatenate([coo.col, zc]))), shape=Tf.shape).asformat(fmt)
     elif lay == "dups":                # coo with every entry stored as two halves (exact)
-        x = sp.coo_matrix((np.concatenate([coo.data / 2, coo.data / 2]),
-                           (np.concatenate([coo.row, coo.row]), np.concatenate([coo.col, coo.col]))), shape=Tf.shape)
+        x = coo_cls((np.concatenate([coo.data / 2, coo.data / 2]),
+                     (np.concatenate([coo.row, coo.row]), np.concatenate([coo.col, coo.col]))), shape=Tf.shape)
     elif lay in ("unsorted", "idx64"):
         y = coo.asformat(fmt)
         data, ind, ptr = y.data.copy(), y.indices.copy(), y.indptr.copy()
@@ -558,6 +684,8 @@ def _mk_tprob(c, Tf):
                 v.setflags(write=False)
     if not np.array_equal(x.toarray().astype(float), Tf):
         raise ValueError("layout %r does not hold the matrix exactly" % lay)
+    if type(x).__name__ != fmt + ("_array" if c.get("arr") else "_matrix"):
+        raise ValueError("container %s instead of %s%s" % (type(x).__name__, fmt, "_array" if c.get("arr") else "_matrix"))
     return x
 
 
@@ -582,6 +710,12 @@ def _mk_pops(c, pa):
 
 def _mk_sets(c):
     src, snk = list(c["src"]), list(c["snk"])
+    # c["src"] / c["snk"] hold the states meant (what the model and the oracle work with); members flagged in c["neg"] are
+    # handed over the NumPy way, counted from the end (i - n: -1 is the last state, -n the first)
+    neg, n = c.get("neg"), len(c["C"])
+    if neg:
+        src = [i - n if f else i for i, f in zip(src, neg["src"])]
+        snk = [i - n if f else i for i, f in zip(snk, neg["snk"])]
     form = c.get("sets_form", "scalar" if c.get("scalar_sets") else "list")
     if form == "scalar":
         return (src[0] if len(src) == 1 else src), (snk[0] if len(snk) == 1 else snk)
@@ -600,7 +734,7 @@ def _snap(x):
     """everything a caller can observe of an argument object"""
     import scipy.sparse as sp
     if sp.issparse(x):
-        d = {"format": x.format, "shape": tuple(x.shape), "dtype": str(x.dtype), "dense": _digest(x.toarray())}
+        d = {"class": type(x).__name__, "format": x.format, "shape": tuple(x.shape), "dtype": str(x.dtype), "dense": _digest(x.toarray())}
         # the matrix a caller can observe: container kind, dtype and entries.  (scipy's own conversions sort the
         # index arrays of an unsorted csr/csc argument in place; that is not a change of the matrix.)
         d["writeable"] = [bool(v.flags.writeable) for v in (getattr(x, a, None) for a in ("data", "indices", "indptr", "row", "col", "offsets"))
@@ -671,7 +805,7 @@ def run_impl(c):
                 fresh = lambda: T2.copy()
             else:
                 buf[:, :] = T2
-                fresh = lambda: sp.lil_matrix(T2)
+                fresh = lambda: type(buf)(T2)
             dense = lambda x: x.toarray() if sp.issparse(x) else np.asarray(x)
             hist = all(np.array_equal(dense(fn(buf, src, snk, **kw())), dense(fn(fresh(), src, snk, **kw())), equal_nan=True)
                        for fn in (tpt.reactive_fluxes, tpt.net_fluxes, tpt.reactive_populations))
@@ -679,6 +813,7 @@ def run_impl(c):
             hist = "err:" + type(ex).__name__
     # ---- the calls proper: fresh argument objects per call; every argument object must come back unchanged
     argmut, raw, out = [], {}, {}
+    q = None
     try:
         q = _guarded("committors", committors, (mk(),) + _mk_sets(c), {}, argmut)
         out["q"] = _vec(q)
@@ -693,6 +828,28 @@ def run_impl(c):
             out[k] = {"err": type(ex).__name__, "msg": str(ex)[:120]}
     out["hist"] = hist
     out["argmut"] = argmut[:6]
+    if c.get("neg"):
+        # the same calls with every state named by its non-negative index
+        plain = {k: v for k, v in c.items() if k != "neg"}
+        negref = []
+        for k, (name, fn) in dict(q=("committors", committors), **{k: v[:2] for k, v in fns.items()}).items():
+            try:
+                ref = _dense(fn(mk(), *_mk_sets(plain)) if k == "q" else fn(mk(), *_mk_sets(plain), **kw()))
+                got = (None if q is None else _dense(q)) if k == "q" else raw.get(k)
+            except Exception as ex:
+                negref.append("%s with the non-negative names raised %s" % (name, type(ex).__name__))
+                continue
+            if got is None:
+                negref.append("%s: no result with sources %s sinks %s, but one with the non-negative names of the same states"
+                              % (name, _mk_sets(c)[0], _mk_sets(c)[1]))
+                continue
+            tol = float(TOL if k == "q" else _rtol(c) if k == "R" else _ftol(c))
+            dev = float(np.max(np.abs(got - ref))) if got.shape == ref.shape and got.size else (0.0 if got.shape == ref.shape else float("inf"))
+            if not _same(got, ref) and not dev <= tol:
+                negref.append("%s with sources %s sinks %s differs by %.3g from the call with the non-negative names of the same states "
+                              "(sources %s sinks %s): %s vs %s" % (name, _mk_sets(c)[0], _mk_sets(c)[1], dev, c["src"], c["snk"],
+                                                                    np.ravel(got)[:8].tolist(), np.ravel(ref)[:8].tolist()))
+        out["negref"] = negref[:4]
     if _big(c) and c["fmt"] != "dense":
         # the dense computation on the same matrix (same populations, same sets)
         ref = {}
@@ -838,6 +995,8 @@ def oracle(c, r):
             out.append(("no-value-" + k, "%s did not return a finite array: %s" % (k, r[k])))
     if out:
         return out
+    for m in r.get("negref") or []:
+        out.append(("negative-index-equivalence", m))
     q = [F(x) for x in r["q"]["val"]]
     Fm = [[F(x) for x in row] for row in r["F"]["val"]]
     Nm = [[F(x) for x in row] for row in r["N"]["val"]]
@@ -936,6 +1095,8 @@ def _oracle_big(c, r):
             out.append(("no-value-" + k, "%s did not return a finite array: %s" % (k, str(r[k])[:200])))
     if out:
         return out
+    for m in r.get("negref") or []:
+        out.append(("negative-index-equivalence", m))
     T, pi = _float_data(c)
     n = len(T)
     src, snk = list(c["src"]), list(c["snk"])
@@ -1159,6 +1320,8 @@ def tags(c, r):
     t = ["dense" if c["fmt"] == "dense" else "sparse", "fmt-" + c["fmt"], "pops-" + c["pops"], "n=%d" % len(c["C"])]
     if not _valid(c):
         return t + ["malformed-populations-length"]
+    if all("val" in r.get(k, {}) for k in "qFN"):
+        t += _tags5(c, r)
     if _big(c):
         n = len(c["C"])
         t += ["stream-" + c["stream"], "nonuniform-pi"]
@@ -1251,6 +1414,42 @@ def tags(c, r):
     return t
 
 
+def _tags5(c, r):
+    """round 3s, fifth wave"""
+    t = []
+    n = len(c["C"])
+    if c.get("arr"):
+        t += ["sparse-array-class", "sparse-array-class-" + c["fmt"], "sparse-array-pops-" + c["pops"]]
+        if r["F"].get("kind", "").endswith("_array"):
+            t.append("sparse-array-class-returned")
+        if c.get("layout"):
+            t.append("sparse-array-repr-variant")
+        if c.get("small"):
+            t.append("sparse-array-small-magnitudes")
+        if c.get("stream") in ("nearsym", "large"):
+            t.append("sparse-array-" + c["stream"])
+    fl = c.get("neg")
+    if fl:
+        t.append("neg-index")
+        t.append("neg-index-" + ("dense" if c["fmt"] == "dense" else "sparse-array" if c.get("arr") else "sparse-matrix"))
+        if any(fl["src"]):
+            t.append("neg-index-source")
+        if any(fl["snk"]):
+            t.append("neg-index-sink")
+        if any(any(f) and not all(f) for f in fl.values()):
+            t.append("neg-index-mixed-with-non-negative")
+        named = [i for kk, f in fl.items() for i, b in zip(c[kk], f) if b]
+        if n - 1 in named:
+            t.append("neg-index-minus-one")
+        if 0 in named:
+            t.append("neg-index-minus-n")
+        t.append("neg-index-sets-form-" + c.get("sets_form", "list"))
+        t.append("neg-index-pops-" + ("computed" if c["pops"] == "computed" else "given"))
+        if _big(c):
+            t.append("neg-index-large")
+    return t
+
+
 ESSENTIAL_TAGS = ["dense", "sparse", "pops-given", "pops-given-unnormalised", "pops-computed", "multi-source", "multi-sink", "nonuniform-pi",
                   "zero-normaliser", "intermediate-with-q-0-or-1", "malformed-populations-length", "some-net-flux",
                   # round 3s
@@ -1263,7 +1462,17 @@ ESSENTIAL_TAGS = ["dense", "sparse", "pops-given", "pops-given-unnormalised", "p
                   # round 3s, second wave
                   "nearsym-pops-computed", "nearsym-pops-given", "nearsym-dense", "nearsym-sparse",
                   "large-sparse-60-to-300-states", "large-sparse-200plus-states", "large-sparse-compared-with-dense",
-                  "large-dense-60-to-300-states", "large-dense-over-512-states"]
+                  "large-dense-60-to-300-states", "large-dense-over-512-states",
+                  # round 3s, fifth wave
+                  "sparse-array-class-csr", "sparse-array-class-csc", "sparse-array-class-coo", "sparse-array-class-lil",
+                  "sparse-array-class-dok", "sparse-array-class-dia", "sparse-array-class-bsr",
+                  "sparse-array-pops-given", "sparse-array-pops-computed", "sparse-array-pops-given-unnormalised",
+                  "sparse-array-repr-variant", "sparse-array-small-magnitudes", "sparse-array-nearsym", "sparse-array-large",
+                  "neg-index-dense", "neg-index-sparse-matrix", "neg-index-sparse-array", "neg-index-source", "neg-index-sink",
+                  "neg-index-mixed-with-non-negative", "neg-index-minus-one", "neg-index-minus-n", "neg-index-sets-form-list",
+                  "neg-index-sets-form-tuple", "neg-index-sets-form-array", "neg-index-sets-form-array32",
+                  "neg-index-sets-form-readonly", "neg-index-sets-form-scalar", "neg-index-pops-computed", "neg-index-pops-given",
+                  "neg-index-large"]
 
 
 def search(rng, tier):
